@@ -452,7 +452,7 @@ fn h(e: impl ToString) -> Failure {
 impl WireRig {
     pub async fn new() -> Result<WireRig, Failure> {
         use crate::event::verif::{AdmitRig, NeighborCfg};
-        let src = IpAddr::V4(Ipv4Addr::new(127, 0, 10, 2));
+        let src = crate::props::wirepeer::fresh_loopback();
         let rig = AdmitRig::new(65000, None).await.map_err(h)?;
         let cfg = NeighborCfg {
             addr: src,
